@@ -549,10 +549,9 @@ where
     Idx: Copy,
     V: Float + UlpsEq,
 {
-    // Entries that compare equal within the tolerance are merged symmetrically (the common value when they are equal):
-    // taking the left operand's entry made every operator non-commutative for entries that differ by less than epsilon,
-    // and epistemic fusion amplifies that difference by 1/a[i].
-    let mid = |l: V, r: V| if l == r { l } else { (l + r) / (V::one() + V::one()) };
+    // An entry is taken over unchanged only when both operands carry exactly the same value; entries that merely lie
+    // within the comparison tolerance of each other (any two values at most epsilon apart, however small they are) go
+    // through the weighted formulas like all others.
     if std::ptr::eq(lhs.base_rate, rhs.base_rate) {
         lhs.base_rate.clone()
     } else if lhs.is_dogmatic() && rhs.is_dogmatic() {
@@ -560,8 +559,8 @@ where
     } else {
         match op {
             FuseOp::ACm | FuseOp::ECm if lhs.is_vacuous() && rhs.is_vacuous() => T::from_fn(|i| {
-                if ulps_eq!(lhs.base_rate[i], rhs.base_rate[i]) {
-                    mid(lhs.base_rate[i], rhs.base_rate[i])
+                if lhs.base_rate[i] == rhs.base_rate[i] {
+                    lhs.base_rate[i]
                 } else {
                     (lhs.base_rate[i] + rhs.base_rate[i]) / (V::one() + V::one())
                 }
@@ -579,8 +578,8 @@ where
                 let rhs_sum_b = V::one() - rhs_u;
                 let temp = rhs_u * lhs_sum_b + lhs_u * rhs_sum_b;
                 T::from_fn(|i| {
-                    if ulps_eq!(lhs.base_rate[i], rhs.base_rate[i]) {
-                        mid(lhs.base_rate[i], rhs.base_rate[i])
+                    if lhs.base_rate[i] == rhs.base_rate[i] {
+                        lhs.base_rate[i]
                     } else {
                         (lhs.base_rate[i] * rhs_u * lhs_sum_b
                             + rhs.base_rate[i] * lhs_u * rhs_sum_b)
@@ -589,15 +588,15 @@ where
                 })
             }
             FuseOp::Avg => T::from_fn(|i| {
-                if ulps_eq!(lhs.base_rate[i], rhs.base_rate[i]) {
-                    mid(lhs.base_rate[i], rhs.base_rate[i])
+                if lhs.base_rate[i] == rhs.base_rate[i] {
+                    lhs.base_rate[i]
                 } else {
                     (lhs.base_rate[i] + rhs.base_rate[i]) / (V::one() + V::one())
                 }
             }),
             FuseOp::Wgh if lhs.is_vacuous() && rhs.is_vacuous() => T::from_fn(|i| {
-                if ulps_eq!(lhs.base_rate[i], rhs.base_rate[i]) {
-                    mid(lhs.base_rate[i], rhs.base_rate[i])
+                if lhs.base_rate[i] == rhs.base_rate[i] {
+                    lhs.base_rate[i]
                 } else {
                     (lhs.base_rate[i] + rhs.base_rate[i]) / (V::one() + V::one())
                 }
@@ -611,8 +610,8 @@ where
                 let rhs_sum_b = V::one() - rhs_u;
                 let temp = lhs_sum_b + rhs_sum_b;
                 T::from_fn(|i| {
-                    if ulps_eq!(lhs.base_rate[i], rhs.base_rate[i]) {
-                        mid(lhs.base_rate[i], rhs.base_rate[i])
+                    if lhs.base_rate[i] == rhs.base_rate[i] {
+                        lhs.base_rate[i]
                     } else {
                         (lhs.base_rate[i] * lhs_sum_b + rhs.base_rate[i] * rhs_sum_b) / temp
                     }
